@@ -18,7 +18,106 @@ func round5Rules() []*Rule {
 		{ID: "TYPENAME", Props: []string{"C10", "C01"}, Min: 3,
 			Doc: "the declared type of a column reaches the schema whole: SQLite makes `x INTEGER PRIMARY KEY` an alias of the rowid only when the declared type is exactly INTEGER, so a production of the grammar's type name that has more symbols than a name (the `(n)` and `(n, m)` forms) must not yield the bare name",
 			Run: runTypeName},
+		{ID: "COLLATE-VERBATIM", Props: []string{"C10", "C11", "C03", "C02"}, Min: 2,
+			Doc: "a COLLATE clause reaches the statement structs with the name as written: `COLLATE BINARY` on an indexed column overrides the column's own collation, so it must not be turned into `no collation` (which the schema builder reads as `inherit the column's`)",
+			Run: runCollateVerbatim},
+		{ID: "PAYLOAD-RAW", Props: []string{"C14", "C01", "C02", "C03", "C04", "C13"}, Min: 1,
+			Doc: "the in-page part of a cell's payload (cellPayload.Payload) is looked at by addOverflow only: whoever wants the bytes of a record or index entry gets them from addOverflow, which completes a spilled payload from its overflow pages — reading the field directly works for every payload that fits its page and returns a truncated record for the others",
+			Run: runPayloadRaw},
+		{ID: "TOK-START", Props: []string{"C16", "C05", "C10"}, Min: 2,
+			Doc: "readBareword consumes at least one byte whenever the tokenizer calls it: every way in which it can answer a count of 0 (its first rune is not one a bare word may start with) contradicts every condition under which tokenize dispatches to it — the two definitions of `can start a bare word` agree, so the tokenizer always advances",
+			Run: runTokStart},
+		{ID: "WR-KEY-DEDUP", Props: []string{"C10", "C01", "C02"}, Min: 1,
+			Doc: "the key of a WITHOUT ROWID table names every column once: a table-level PRIMARY KEY (a, b, a) is stored as (a, b) — SQLite drops a column it has in the key already (same column, same collation) — so the column list of the constraint goes through a de-duplication before it becomes Schema.PK, and the record positions of all other columns follow from that",
+			Run: runWRKeyDedup},
+		{ID: "CONSTRAINT-ORDER", Props: []string{"C10", "C02", "C03"}, Min: 3,
+			Doc: "a column's UNIQUE and PRIMARY KEY constraints are applied in the order they are written (SQLite makes their indexes in that order, and an index the two share has the direction of the first): the parser records which came first, and the schema builder adds the UNIQUE index before or after the key accordingly",
+			Run: runConstraintOrder},
+		{ID: "SCHEMA-IDX", Props: []string{"C10", "C02", "C03"}, Min: 1,
+			Doc: "newSchema attaches a sqlite_master row to the table's schema as an index only when the row is an index (type), belongs to this table (tbl_name equals the lower-cased table name) and has SQL text — an automatic index has none and comes from the table's own definition",
+			Run: runSchemaIdx},
 	}
+}
+
+func runSchemaIdx(c *Ctx) {
+	p := c.P
+	fn := c.MustFunc("db", "newSchema")
+	if fn == nil {
+		return
+	}
+	var site *ssa.Call
+	for _, cs := range callsIn(fn) {
+		if cal := cs.Common().StaticCallee(); cal != nil && p.FnKey(cal) == "(*db.Schema).addCreateIndex" {
+			if site != nil {
+				c.Undecided("newSchema index rows", fn.Pos(), "more than one place attaches CREATE INDEX rows")
+				return
+			}
+			site, _ = cs.(*ssa.Call)
+		}
+	}
+	if site == nil {
+		c.Undecided("newSchema index rows", fn.Pos(), "newSchema no longer attaches CREATE INDEX rows through addCreateIndex")
+		return
+	}
+	t := &Termer{P: p}
+	paths, ok := EnumLits(fn.Blocks[0], 0, TabOpts{Termer: t, EventOf: callEvents(p), Limit: 300000, StopGoesOn: inCycle(site.Block()),
+		Stop: func(in ssa.Instruction, ps *pathState) bool { return in == ssa.Instruction(site) }})
+	if !ok {
+		c.Undecided("newSchema index rows", fn.Pos(), "too many paths")
+		return
+	}
+	tab := "p:" + fn.Params[0].Name()
+	n, bad := 0, ""
+	for _, lp := range paths {
+		if lp.Stop == nil || bad != "" {
+			continue
+		}
+		n++
+		// the row: the element whose sql text was parsed last
+		row := ""
+		for _, e := range lp.Events {
+			if e.Kind == "call" && e.Name == "sql.Parse" && len(e.Args) == 1 && strings.HasSuffix(e.Args[0], ".sql") {
+				row = strings.TrimSuffix(e.Args[0], ".sql")
+			}
+		}
+		if row == "" {
+			bad = "the statement attached is not parsed from a row's sql text; path [" + pathDesc(lp) + "]"
+			continue
+		}
+		lowered := false
+		for _, e := range lp.Events {
+			if e.Kind == "call" && e.Name == "strings.ToLower" && len(e.Args) == 1 && e.Args[0] == tab {
+				lowered = true
+			}
+		}
+		isIndex := lp.Holds(row+".typ", token.EQL, `"index"`)
+		hasSQL := lp.Holds(row+".sql", token.NEQ, `""`)
+		ofTable := false
+		for _, l := range lp.Lits {
+			eq := (l.Op == token.EQL && l.Val) || (l.Op == token.NEQ && !l.Val)
+			if eq && l.C == "0" && (strings.HasPrefix(l.Subject, row+".tblName−call:strings.ToLower") || (strings.HasPrefix(l.Subject, "call:strings.ToLower") && strings.HasSuffix(l.Subject, "−"+row+".tblName"))) {
+				ofTable = true
+			}
+		}
+		var missing []string
+		if !isIndex {
+			missing = append(missing, "type = \"index\"")
+		}
+		if !ofTable || !lowered {
+			missing = append(missing, "tbl_name = the lower-cased table name")
+		}
+		if !hasSQL {
+			missing = append(missing, "sql text present")
+		}
+		if len(missing) > 0 {
+			bad = fmt.Sprintf("row %s is attached without having established %s: indexes of other tables (or the table's own automatic indexes, a second time) would be reported for this table; path [%s]", row, strings.Join(missing, ", "), pathDesc(lp))
+		}
+	}
+	if n == 0 {
+		c.Fail("newSchema index rows", site.Pos(), "no path attaches a CREATE INDEX row")
+		return
+	}
+	c.Check(bad == "", "newSchema index rows", site.Pos(), "%s", orStr(bad, "a row is attached as an index of the table only when it is an index row of this table with SQL text"))
 }
 
 func runTypeName(c *Ctx) {
@@ -158,4 +257,531 @@ func runNarrow(c *Ctx) {
 			c.Check(ok, key, cv.Pos(), "the conversion keeps the value: %s", orStr(why, "operand proven within the target type's range on every path"))
 		}
 	}
+}
+
+
+func runCollateVerbatim(c *Ctx) {
+	p := c.P
+	g, why := loadGrammar(p)
+	if g == nil {
+		c.Undecided("grammar", token.NoPos, "%s", why)
+		return
+	}
+	cp, why := loadCompiledParser(p)
+	if cp == nil {
+		c.Undecided("compiled parser", token.NoPos, "%s", why)
+		return
+	}
+	if len(cp.R2) != len(g.Prods) {
+		c.Undecided("production count", token.NoPos, "grammar and compiled parser are out of step (GRAM-0)")
+		return
+	}
+	n := 0
+	for k := 1; k < len(g.Prods); k++ {
+		pr := g.Prods[k]
+		if len(pr.RHS) != 2 || pr.RHS[0] != "COLLATE" {
+			continue
+		}
+		n++
+		key := fmt.Sprintf("%s → COLLATE %s", pr.LHS, pr.RHS[1])
+		reads2 := false
+		for _, r := range cp.Reads[k] {
+			if r.K == 2 {
+				reads2 = true
+			}
+		}
+		c.Check(reads2 && len(cp.FuncCalls[k]) == 0, key, cp.CasePos[k], "%s", map[bool]string{
+			true:  "the value is the name as written ($2, converted to the value's type at most)",
+			false: fmt.Sprintf("the action passes the name through %v (or does not use $2): a name rewritten here — `BINARY` to the empty name, say — changes which collation an index column gets, because an empty name means `inherit the table column's`", cp.FuncCalls[k]),
+		}[reads2 && len(cp.FuncCalls[k]) == 0])
+	}
+	if n == 0 {
+		c.Undecided("COLLATE productions", token.NoPos, "the grammar has no `… → COLLATE name` production any more")
+	}
+}
+
+
+func runPayloadRaw(c *Ctx) {
+	p := c.P
+	n := 0
+	for _, fn := range p.ModFuncs() {
+		if p.PkgShort(fn) != "db" {
+			continue
+		}
+		for _, in := range instrs(fn) {
+			var fa ssa.Value
+			switch x := in.(type) {
+			case *ssa.UnOp:
+				if f, ok := x.X.(*ssa.FieldAddr); ok && x.Op == token.MUL {
+					fa = f
+				}
+			case *ssa.Field:
+				fa = x
+			}
+			if fa == nil {
+				continue
+			}
+			var base ssa.Value
+			name := ""
+			switch f := fa.(type) {
+			case *ssa.FieldAddr:
+				base, name = f.X, fieldName(f)
+			case *ssa.Field:
+				base, name = f.X, fieldName(f)
+			}
+			if name != "Payload" || !typeIs(base.Type(), modPkgPath("db"), "cellPayload") {
+				continue
+			}
+			n++
+			ok := true
+			for _, r := range contextRoots(p, fn, 0) {
+				if p.FnKey(r) != "db.addOverflow" {
+					ok = false
+				}
+			}
+			top := fn
+			for top.Parent() != nil {
+				top = top.Parent()
+			}
+			if p.FnKey(top) == "db.addOverflow" {
+				ok = true
+			}
+			c.Check(ok, "reader of cellPayload.Payload: "+p.FnKey(fn), in.Pos(), "%s", map[bool]string{true: "addOverflow (which completes it)", false: "the in-page part of a payload is read outside addOverflow: a payload that spilled to overflow pages is seen truncated here"}[ok])
+		}
+	}
+	if n == 0 {
+		c.Undecided("reader of cellPayload.Payload", token.NoPos, "nothing reads cellPayload.Payload any more: the anchor of this rule is gone")
+	}
+}
+
+
+// runeFacts: what a path established about the rune `r`: unicode predicates with their polarity and comparisons with
+// constants.
+type runeFacts struct {
+	preds map[string]bool
+	cmps  []Lit
+	clash bool // the path itself holds P and ¬P
+}
+
+func runeFactsOf(lp *LPath, r ssa.Value) runeFacts {
+	rf := runeFacts{preds: map[string]bool{}}
+	same := func(v ssa.Value, ps *pathState) bool {
+		if ps != nil {
+			v = ps.Resolve(v)
+		}
+		return stripConv(v) == stripConv(r)
+	}
+	for _, l := range lp.Lits {
+		ps := l.PS
+		if ps == nil {
+			ps = lp.PS
+		}
+		switch x := l.Cond.(type) {
+		case *ssa.Call:
+			cal := x.Call.StaticCallee()
+			if cal == nil || cal.Pkg == nil || cal.Pkg.Pkg.Path() != "unicode" || len(x.Call.Args) != 1 || !same(x.Call.Args[0], ps) {
+				continue
+			}
+			pol := (l.C == "true") == l.Val
+			if l.Op == token.NEQ {
+				pol = !pol
+			}
+			if old, ok := rf.preds[cal.Name()]; ok && old != pol {
+				rf.clash = true
+			}
+			rf.preds[cal.Name()] = pol
+		case *ssa.BinOp:
+			if !l.IsInt {
+				continue
+			}
+			if same(x.X, ps) || same(x.Y, ps) {
+				l2 := l
+				l2.Subject = "rune"
+				rf.cmps = append(rf.cmps, l2)
+			}
+		}
+	}
+	return rf
+}
+
+// compatible: some rune satisfies both fact sets (unicode predicates are independent atoms; comparisons are checked
+// on the constants involved and their neighbours).
+func (a runeFacts) compatible(b runeFacts) bool {
+	if a.clash || b.clash {
+		return false
+	}
+	for k, v := range a.preds {
+		if w, ok := b.preds[k]; ok && w != v {
+			return false
+		}
+	}
+	return satisfiable(append(append([]Lit(nil), a.cmps...), b.cmps...))
+}
+
+func runTokStart(c *Ctx) {
+	p := c.P
+	tok := c.MustFunc("sql", "tokenize")
+	rb := c.MustFunc("sql", "readBareword")
+	if tok == nil || rb == nil {
+		return
+	}
+	t := &Termer{P: p}
+	// 1. how readBareword can answer 0: paths through its first iteration whose count is the constant 0
+	var first ssa.Value // the rune of the first iteration
+	for _, in := range instrs(rb) {
+		if e, ok := in.(*ssa.Extract); ok && e.Index == 2 {
+			if nx, ok := e.Tuple.(*ssa.Next); ok && nx.IsString {
+				first = e
+			}
+		}
+	}
+	if first == nil {
+		c.Undecided("readBareword first rune", rb.Pos(), "readBareword does not range over its argument any more")
+		return
+	}
+	rpaths, ok := EnumLits(rb.Blocks[0], 0, TabOpts{Termer: t, Limit: 100000})
+	if !ok {
+		c.Undecided("readBareword paths", rb.Pos(), "too many paths")
+		return
+	}
+	var zero []runeFacts
+	var zeroDesc []string
+	for _, lp := range rpaths {
+		if lp.Exit == nil || len(lp.Exit.Results) != 2 || lp.PS.Gen > 0 {
+			continue // only the first iteration can answer 0 (later ones answer the offset of a later rune)
+		}
+		pr := newProver(p, t, lp)
+		if pr.g.inconsistent() {
+			continue
+		}
+		l := pr.linOf(lp.Exit.Results[1])
+		pr.applyDisj()
+		if pr.g.entailsLE(zero_, l.base, l.off-1) {
+			continue // ≥ 1
+		}
+		// an empty argument answers ("", 0) as well (the range ends before its first rune); that the tokenizer never
+		// passes one is shown per dispatch below
+		emptyArg := false
+		for _, l := range lp.Lits {
+			if e, ok := l.Cond.(*ssa.Extract); ok && e.Index == 0 {
+				if _, isNext := e.Tuple.(*ssa.Next); isNext && ((l.C == "true") != l.Val) {
+					emptyArg = true
+				}
+			}
+		}
+		if emptyArg {
+			continue
+		}
+		rf := runeFactsOf(lp, first)
+		zero = append(zero, rf)
+		zeroDesc = append(zeroDesc, pathDesc(lp))
+	}
+	c.Check(true, "readBareword zero answers", rb.Pos(), "%d way(s) to answer a count of 0 on a non-empty argument", len(zero))
+	// 2. every dispatch to readBareword in tokenize
+	n := 0
+	for _, cs := range callsIn(tok) {
+		call, isCall := cs.(*ssa.Call)
+		if !isCall || cs.Common().StaticCallee() != rb {
+			continue
+		}
+		n++
+		key := fmt.Sprintf("tokenize→readBareword#%d", n)
+		// the rune the dispatch looked at: result 0 of DecodeRuneInString on the very slice handed to readBareword
+		var c0 ssa.Value
+		argT := t.Term(call.Call.Args[0], emptyPS())
+		for _, in := range instrs(tok) {
+			if e, ok := in.(*ssa.Extract); ok && e.Index == 0 {
+				if dc, ok := e.Tuple.(*ssa.Call); ok && dc.Call.StaticCallee() != nil && isLibFunc(dc.Call.StaticCallee(), "unicode/utf8", "DecodeRuneInString") && t.Term(dc.Call.Args[0], emptyPS()) == argT {
+					c0 = e
+				}
+			}
+		}
+		if c0 == nil {
+			c.Fail(key, call.Pos(), "the bare word is read from %s, but the dispatch did not decode the first rune of that very text", argT)
+			continue
+		}
+		hs := loopHeaders(tok)
+		if len(hs) != 1 {
+			c.Undecided(key, call.Pos(), "tokenize is not a single loop")
+			continue
+		}
+		gpaths, ok := EnumLits(hs[0], 0, TabOpts{Termer: t, Limit: 200000,
+			Stop: func(in ssa.Instruction, ps *pathState) bool { return in == ssa.Instruction(call) }})
+		if !ok {
+			c.Undecided(key, call.Pos(), "too many paths")
+			continue
+		}
+		bad := ""
+		for _, gp := range gpaths {
+			if gp.Stop == nil {
+				continue
+			}
+			gpr := newProver(p, t, gp)
+			if gpr.g.inconsistent() {
+				continue
+			}
+			alen, _, _ := gpr.lenTermOf(call.Call.Args[0])
+			gpr.applyDisj()
+			if !gpr.g.entailsLE(zero_, alen, -1) {
+				bad = fmt.Sprintf("readBareword may be handed an empty text on [%s]", pathDesc(gp))
+			}
+			g := runeFactsOf(gp, c0)
+			for zi, z := range zero {
+				if g.compatible(z) {
+					bad = fmt.Sprintf("dispatch on [%s] is compatible with readBareword answering 0 on [%s]", pathDesc(gp), zeroDesc[zi])
+				}
+			}
+		}
+		c.Check(bad == "", key, call.Pos(), "%s", orStr(bad, "whenever tokenize dispatches to readBareword its first rune is one readBareword accepts as the start of a bare word: the count is ≥ 1 and the tokenizer advances"))
+	}
+	if n == 0 {
+		c.Undecided("tokenize→readBareword", tok.Pos(), "tokenize no longer calls readBareword")
+	}
+}
+
+const zero_ = zero
+
+
+func runWRKeyDedup(c *Ctx) {
+	p := c.P
+	fn := findFn(p, "db.newCreateTable")
+	if fn == nil {
+		c.Undecided("anchor newCreateTable", token.NoPos, "not found")
+		return
+	}
+	// the table-level setPK call: its argument is computed (from the constraint's column list), not a literal. It may sit
+	// in a helper extracted from newCreateTable (the constraint loop as a function of its own).
+	var sites []ssa.CallInstruction
+	for _, g := range p.ModFuncs() {
+		if g != fn {
+			roots := contextRoots(p, g, 0)
+			if len(roots) != 1 || roots[0] != fn || g == roots[0] {
+				continue
+			}
+		}
+		sites = append(sites, callsIn(g)...)
+	}
+	n := 0
+	for _, cs := range sites {
+		call, ok := cs.(*ssa.Call)
+		if !ok || call.Call.StaticCallee() == nil || p.FnKey(call.Call.StaticCallee()) != "(*db.Schema).setPK" || len(call.Call.Args) != 2 {
+			continue
+		}
+		arg, isCall := call.Call.Args[1].(*ssa.Call)
+		if !isCall {
+			continue // the column-level key: one column
+		}
+		n++
+		key := fmt.Sprintf("table-level WITHOUT ROWID key#%d", n)
+		f := arg.Call.StaticCallee()
+		if f == nil || !p.InModule(f) {
+			c.Undecided(key, call.Pos(), "the key is computed by something this rule cannot read")
+			continue
+		}
+		if p.FnKey(f) == "(*db.Schema).toIndexColumns" {
+			c.Fail(key, call.Pos(), "the constraint's column list becomes the key as written: for PRIMARY KEY (a, b, a) SQLite stores (a, b) and then the other columns, so with the repeated column kept every column after the key is read from the wrong record position (confirmed: `c` comes back NULL)")
+			continue
+		}
+		why := dedupFunction(p, f)
+		c.Check(why == "", key, call.Pos(), "the constraint's columns pass through %s, which keeps the first occurrence of every key column %s", p.FnKey(f), why)
+	}
+	if n == 0 {
+		c.Undecided("table-level WITHOUT ROWID key", fn.Pos(), "newCreateTable has no setPK call with a computed key any more")
+	}
+}
+
+// dedupFunction: "" when f copies its []IndexColumn parameter element by element into its result, appending an element
+// exactly when no element already in the result is the same key column (as judged by the verified comparator).
+func dedupFunction(p *Program, f *ssa.Function) string {
+	hs := loopHeaders(f)
+	if len(hs) == 0 {
+		return "— it has no loop over the columns"
+	}
+	// the outer loop: not inside another
+	var h *ssa.BasicBlock
+	for _, cand := range hs {
+		inside := false
+		for _, o := range hs {
+			if o != cand && loopBody(o)[cand] {
+				inside = true
+			}
+		}
+		if !inside {
+			h = cand
+		}
+	}
+	also := map[*ssa.Function]bool{}
+	for _, cs := range callsIn(f) {
+		if cal := cs.Common().StaticCallee(); cal != nil && p.InModule(cal) && sameKeyComparator(p, cal) != "" {
+			also[cal] = true // a search helper (walked in place); the comparator itself stays a call
+		}
+	}
+	t := &Termer{P: p}
+	paths, ok := EnumLits(h, 0, TabOpts{Termer: t, EventOf: callEvents(p), InlineAlso: also, Limit: 100000,
+		Stop: func(in ssa.Instruction, ps *pathState) bool { return in == h.Instrs[0] && len(ps.Path) > 1 }})
+	if !ok {
+		return "— too many paths"
+	}
+	nApp, nSkip := 0, 0
+	for _, lp := range paths {
+		if lp.Stop == nil {
+			continue
+		}
+		appended := false
+		for _, b := range lp.PS.Path {
+			if b.Parent() != f {
+				continue
+			}
+			for _, in := range b.Instrs {
+				if call, ok := in.(*ssa.Call); ok {
+					if bi, ok := call.Call.Value.(*ssa.Builtin); ok && bi.Name() == "append" {
+						appended = true
+					}
+				}
+			}
+		}
+		// comparator answers on this path
+		lastTrue, anyTrue, nCmp := false, false, 0
+		for _, e := range lp.Events {
+			if e.Kind != "call" {
+				continue
+			}
+			v, isVal := e.Instr.(ssa.Value)
+			call, isCall := e.Instr.(*ssa.Call)
+			if !isVal || !isCall || call.Call.StaticCallee() == nil || !p.InModule(call.Call.StaticCallee()) || sameKeyComparator(p, call.Call.StaticCallee()) != "" {
+				continue
+			}
+			nCmp++
+			lastTrue = lp.Has(t.Term(v, lp.PS), token.EQL, "true", true)
+			if lastTrue {
+				anyTrue = true
+			}
+		}
+		if appended {
+			nApp++
+			if anyTrue {
+				return "— an element is appended although the comparison found it in the result already"
+			}
+		} else {
+			nSkip++
+			if nCmp == 0 || !lastTrue {
+				return "— an element is dropped without the comparison having found it in the result"
+			}
+		}
+	}
+	if nApp == 0 || nSkip == 0 {
+		return fmt.Sprintf("— expected iterations that append and iterations that drop (found %d, %d)", nApp, nSkip)
+	}
+	return ""
+}
+
+
+func runConstraintOrder(c *Ctx) {
+	p := c.P
+	t := &Termer{P: p}
+	// (a) the parser: in makeColumnDef's UNIQUE case something is stored that depends on whether PRIMARY KEY was seen
+	mk := c.MustFunc("sql", "makeColumnDef")
+	orderField := ""
+	if mk != nil {
+		_, paths, ok := bodyPaths(p, mk, t)
+		if !ok {
+			c.Undecided("makeColumnDef records the order", mk.Pos(), "makeColumnDef is not a single loop over the constraints")
+		} else {
+			for _, lp := range paths {
+				isUnique := false
+				for _, l := range lp.Lits {
+					if strings.HasPrefix(l.Subject, "type(") && l.Op == token.EQL && l.Val && strings.HasSuffix(l.C, "ccUnique") {
+						isUnique = true
+					}
+				}
+				if !isUnique {
+					continue
+				}
+				for _, e := range lp.Events {
+					if e.Kind == "store" && e.Name != "Unique" && strings.Contains(e.Val, ".PrimaryKey") && strings.HasPrefix(e.Val, "!") {
+						orderField = e.Name
+					}
+				}
+			}
+			c.Check(orderField != "", "makeColumnDef records the order", mk.Pos(), "%s", map[bool]string{
+				true:  "when UNIQUE is met, whether PRIMARY KEY has been met already is recorded (field " + orderField + ")",
+				false: "the column definition keeps UNIQUE and PRIMARY KEY as two flags and forgets which was written first: `a TEXT UNIQUE PRIMARY KEY DESC` and `a TEXT PRIMARY KEY DESC UNIQUE` cannot be told apart, but SQLite gives their shared index the direction of the first (ASC in the one, DESC in the other)",
+			}[orderField != ""])
+		}
+	}
+	// (b) the schema builder: within one column, the UNIQUE index is added before the key exactly when the record says so
+	fn := findFn(p, "db.newCreateTable")
+	if fn == nil {
+		c.Undecided("anchor newCreateTable", token.NoPos, "not found")
+		return
+	}
+	var h *ssa.BasicBlock
+	for _, cand := range loopHeaders(fn) {
+		for b := range loopBody(cand) {
+			for _, in := range b.Instrs {
+				if st, ok := in.(*ssa.Store); ok && fieldName(st.Addr) == "Columns" && h == nil {
+					h = cand
+				}
+			}
+		}
+	}
+	if h == nil {
+		c.Undecided("newCreateTable column loop", fn.Pos(), "no loop appending to Schema.Columns")
+		return
+	}
+	body := loopBody(h)
+	paths, ok := EnumLits(h, 0, TabOpts{Termer: t, EventOf: callEvents(p), Limit: 300000,
+		Stop: func(in ssa.Instruction, ps *pathState) bool {
+			b := in.Block()
+			if b.Parent() != fn || in != b.Instrs[0] {
+				return false
+			}
+			return (b == h && len(ps.Path) > 1) || !body[b]
+		}})
+	if !ok {
+		c.Undecided("newCreateTable column loop", fn.Pos(), "too many paths")
+		return
+	}
+	nUK, nKU, bad := 0, 0, ""
+	for _, lp := range paths {
+		iu, ik := -1, -1
+		for i, e := range lp.Events {
+			if e.Kind != "call" {
+				continue
+			}
+			switch {
+			case e.Name == "(*db.Schema).addIndex" && len(e.Args) >= 2 && e.Args[1] == "const:false":
+				iu = i
+			case e.Name == "(*db.Schema).addIndex" && len(e.Args) >= 2 && e.Args[1] == "const:true", e.Name == "(*db.Schema).setPK":
+				ik = i
+			}
+		}
+		if iu < 0 || ik < 0 {
+			continue
+		}
+		first := false
+		decided := false
+		for _, l := range lp.Lits {
+			if orderField != "" && strings.HasSuffix(l.Subject, "."+orderField) && (l.Op == token.EQL || l.Op == token.NEQ) {
+				decided = true
+				first = ((l.C == "true") == l.Val) == (l.Op == token.EQL)
+			}
+		}
+		if iu < ik {
+			nUK++
+			if !decided || !first {
+				bad = "the UNIQUE index is added before the key on a path that did not establish `UNIQUE was written first`: [" + pathDesc(lp) + "]"
+			}
+		} else {
+			nKU++
+			if orderField != "" && (!decided || first) {
+				bad = "the key is added before the UNIQUE index on a path that did not establish `PRIMARY KEY was written first`: [" + pathDesc(lp) + "]"
+			}
+		}
+	}
+	c.Check(nKU > 0, "key before UNIQUE", fn.Pos(), "a column with PRIMARY KEY … UNIQUE gets its key first (%d paths)", nKU)
+	c.Check(nUK > 0 && bad == "", "UNIQUE before key", fn.Pos(), "%s", orStr(bad, map[bool]string{
+		true:  "a column with UNIQUE … PRIMARY KEY gets its UNIQUE index first",
+		false: "a column's UNIQUE index is always added after its key, whatever order the constraints were written in: for `a TEXT UNIQUE PRIMARY KEY DESC` the shared index is reported DESC where the file has it ASC",
+	}[nUK > 0]))
 }
